@@ -691,7 +691,12 @@ func (gen *Generator) GenerateCallBySymbol(sym *SexpSymbol, args []Sexp, orig Se
 			gen.AddInstruction(RemoveScopeInstr{})
 		}
 		gen.AddInstruction(PrepareCallInstr{sym, len(args)})
-		gen.AddInstruction(GotoInstr{1}) // goto 1 instead of 0 to avoid adding a new scope
+		// Leave this activation's own scope as well and jump to the
+		// very beginning, so that the next iteration gets a fresh
+		// function scope like any other call: closures created during
+		// earlier iterations keep the variables of their own activation.
+		gen.AddInstruction(RemoveScopeInstr{})
+		gen.AddInstruction(GotoInstr{0})
 	} else {
 		gen.AddInstruction(CallExprInstr{callee: sym, args: append([]Sexp(nil), args...)})
 	}
